@@ -19,7 +19,7 @@ WOPTS = ["--no-show-locs", "--no-parameter-names", "--no-write-default-sizes", "
 
 
 def plan(tier):
-    return {"n": 200 if tier == "quick" else 2000, "floor": 40 if tier == "quick" else 400}
+    return {"n": 200 if tier == "quick" else 800, "floor": 40 if tier == "quick" else 160}
 
 
 def rule(tier):
